@@ -2499,3 +2499,97 @@ Proof.
   exact (upload_single_loss_section V B crc_client crc_server size_ind [FDropS j] HB (lostb_drops j) j
            (fun ns outs => mangle_single_drop j outs ns) index sub fuel HV Hj Hfuel).
 Qed.
+
+(* =====================================================================================
+   C13: other callers of the upload stream
+   ===================================================================================== *)
+(* ---- the readinto()-then-read() caller hands out the same byte stream as read() alone ---- *)
+Section ReadInto.
+  Context {S : Type} (srv : S -> frame -> S * list frame).
+  Context (Hsrv8 : forall s fr, Forall len8 (snd (srv s fr))).
+  Notation net := (@net S).
+
+  Definition ri_post (u : ul) (w : net) (start : list Z) (x : RU (list Z) * list Z) : Prop :=
+    match x with
+    | ((Ok acc', u', w'), pend') =>
+        q8 w' /\ exists n, forall fuel, readall srv (n + Datatypes.S fuel) u w start = readall srv (Datatypes.S fuel) u' w' (acc' ++ pend')
+    | ((Err k, u', w'), _) => exists n, forall fuel, readall srv (n + Datatypes.S fuel) u w start = (Err k, u', w')
+    | ((Abort a, u', w'), _) => exists n, forall fuel, readall srv (n + Datatypes.S fuel) u w start = (Abort a, u', w')
+    end.
+
+  Lemma readinto_all_equiv : forall ks u pend (w : net) acc,
+    q8 w -> ri_post u w (acc ++ pend) (ul_readinto_all srv ks u pend w acc).
+  Proof.
+    induction ks as [|k r IH]; intros u pend w acc Hq.
+    - cbn [ul_readinto_all ri_post]. split; [exact Hq|]. exists 0%nat. intros fuel. reflexivity.
+    - cbn [ul_readinto_all]. unfold ul_readinto.
+      destruct pend as [|p0 pend0].
+      + rewrite app_nil_r.
+        destruct (ul_read srv u w) as [[[d|e|a] u1] w1] eqn:Er.
+        * destruct (ul_read_q8 srv Hsrv8 _ _ _ _ _ Hq Er) as [Hq1 Hdone].
+          specialize (IH u1 (skipn (Z.to_nat k) d) w1 (acc ++ firstn (Z.to_nat k) d) Hq1).
+          rewrite <- app_assoc, firstn_skipn in IH.
+          destruct (ul_readinto_all srv r u1 (skipn (Z.to_nat k) d) w1 (acc ++ firstn (Z.to_nat k) d)) as [[[[acc'|e'|a'] u'] w'] pend'] eqn:Ea;
+            cbn [ri_post] in IH |- *.
+          -- destruct IH as [Hq' [n Hn]]. split; [exact Hq'|].
+             destruct d as [|x d'].
+             ++ (* nothing handed out: the stream is finished *)
+                specialize (Hdone eq_refl). rewrite app_nil_r in Hn.
+                exists n. intros fuel. rewrite <- Hn.
+                (* reading once more from the finished stream changes nothing *)
+                assert (Hfix : ul_read srv u1 w1 = (Ok [], u1, w1)) by (unfold ul_read; rewrite Hdone; reflexivity).
+                destruct n as [|n']; cbn [Nat.add readall]; rewrite Er; [rewrite Hfix|]; try reflexivity.
+                rewrite Hfix. reflexivity.
+             ++ exists (Datatypes.S n). intros fuel. cbn [Nat.add readall]. rewrite Er. apply Hn.
+          -- destruct IH as [n Hn]. destruct d as [|x d'].
+             ++ specialize (Hdone eq_refl). rewrite app_nil_r in Hn.
+                assert (Hfix : ul_read srv u1 w1 = (Ok [], u1, w1)) by (unfold ul_read; rewrite Hdone; reflexivity).
+                exfalso. specialize (Hn 0%nat). destruct n; cbn [Nat.add readall] in Hn; rewrite Hfix in Hn; discriminate.
+             ++ exists (Datatypes.S n). intros fuel. cbn [Nat.add readall]. rewrite Er. apply Hn.
+          -- destruct IH as [n Hn]. destruct d as [|x d'].
+             ++ specialize (Hdone eq_refl). rewrite app_nil_r in Hn.
+                assert (Hfix : ul_read srv u1 w1 = (Ok [], u1, w1)) by (unfold ul_read; rewrite Hdone; reflexivity).
+                exfalso. specialize (Hn 0%nat). destruct n; cbn [Nat.add readall] in Hn; rewrite Hfix in Hn; discriminate.
+             ++ exists (Datatypes.S n). intros fuel. cbn [Nat.add readall]. rewrite Er. apply Hn.
+        * cbn [ri_post]. exists 0%nat. intros fuel. cbn [Nat.add readall]. rewrite Er. reflexivity.
+        * cbn [ri_post]. exists 0%nat. intros fuel. cbn [Nat.add readall]. rewrite Er. reflexivity.
+      + specialize (IH u (skipn (Z.to_nat k) (p0 :: pend0)) w (acc ++ firstn (Z.to_nat k) (p0 :: pend0)) Hq).
+        rewrite <- app_assoc, firstn_skipn in IH. exact IH.
+  Qed.
+
+  (* the with-block: same result as f.read() alone with a little more fuel *)
+  Lemma transfer_ri_equiv fuel w index sub blksize crc ks :
+    exists n, ul_transfer_ri srv (Datatypes.S fuel) w index sub blksize crc ks =
+              ul_transfer srv (n + Datatypes.S fuel) w index sub blksize crc.
+  Proof.
+    unfold ul_transfer_ri, ul_transfer.
+    destruct (ul_init srv w index sub blksize crc) as [[u0|e|a] w1] eqn:Ei; try (exists 0%nat; reflexivity).
+    assert (Hq1 : q8 w1).
+    { revert Ei. unfold ul_init. destruct (request_response srv w _) as [[r|k|a] w0] eqn:Err; try discriminate.
+      pose proof (request_response_q8 srv Hsrv8 _ _ _ _ Err) as Hq0.
+      destruct (negb (Z.land (fb r 0) 224 =? RESPONSE_BLOCK_UPLOAD)); [discriminate|].
+      destruct (negb (fb r 1 + 256 * fb r 2 =? index) || negb (fb r 3 =? sub)); [discriminate|].
+      intros H. inversion H; subst. apply send_request_q8; assumption. }
+    pose proof (readinto_all_equiv ks u0 [] w1 [] Hq1) as H. cbn [app] in H.
+    destruct (ul_readinto_all srv ks u0 [] w1 []) as [[[[acc'|e'|a'] u'] w'] pend']; cbn [ri_post] in H.
+    - destruct H as [_ [n Hn]]. exists n. unfold ul_read_rest. rewrite Hn. reflexivity.
+    - destruct H as [n Hn]. exists n. rewrite Hn. reflexivity.
+    - destruct H as [n Hn]. exists n. rewrite Hn. reflexivity.
+  Qed.
+End ReadInto.
+
+(* C13 readinto_exact: the undisturbed transfer read through readinto() with arbitrary (small) buffers and a final
+   read() returns exactly the value as well *)
+Lemma readinto_exact : forall (V : list Z) (B index sub : Z) (crc_client crc_server size_ind : bool) (fuel : nat) (ks : list Z),
+  1 <= zlen V < 4294967296 -> 1 <= B <= 127 -> (length V + 1 < fuel)%nat ->
+  exists u w,
+    ul_transfer_ri (faulty ul_srv) fuel (mknet (fs_init (us_init V crc_server size_ind) []) [] []) index sub B crc_client ks = (Ok V, u, w) /\
+    u_done u = true /\ u_error u = false /\
+    us_ended (f_inner (n_srv w)) = true /\ us_acks_exact (f_inner (n_srv w)) = true /\ us_bad (f_inner (n_srv w)) = 0.
+Proof.
+  intros V B index sub crc_client crc_server size_ind fuel ks HV HB Hfuel.
+  destruct fuel as [|f]; [lia|].
+  destruct (transfer_ri_equiv (faulty ul_srv) (faulty_len8 ul_srv ul_srv_len8) f
+              (mknet (fs_init (us_init V crc_server size_ind) []) [] []) index sub B crc_client ks) as [n Hn].
+  rewrite Hn. apply block_upload_exact; try assumption. lia.
+Qed.
